@@ -352,7 +352,10 @@ def linearize(shape: Any) -> Tuple[Any, Optional[Tuple[str, str]]]:
     try:
         return yl.linearize_to_subroutines(flow), None
     except BaseException as e:  # noqa
-        return None, (f"raises-{runner.exc_bucket(e)}", runner.exc_text(e))
+        b = runner.exc_bucket(e)
+        if b.endswith("@?"):  # raised by a contract of the entry point itself
+            b = b[:-1] + "yielding/linear.py:linearize_to_subroutines"
+        return None, (f"raises-{b}", runner.exc_text(e))
 
 
 def evaluate_flow(shape: Any, bit_lists: Sequence[Sequence[int]]) -> List[Tuple[str, str, Sequence[int]]]:
@@ -384,9 +387,7 @@ def evaluate_flow(shape: Any, bit_lists: Sequence[Sequence[int]]) -> List[Tuple[
             elif len(got) > len(ref) and i == len(ref):
                 bucket = "trace-too-long"
             else:
-                kind_ref = ref[i][0] if i < len(ref) else "end"
-                kind_got = got[i][0] if i < len(got) else "end"
-                bucket = f"trace-differs:{kind_ref}->{kind_got}"
+                bucket = "trace-differs"
             fails.append(
                 (bucket,
                  f"bits={list(bits)!r} end={how} first difference at event {i}\n"
